@@ -366,6 +366,21 @@ func genEW(prop, tier string, r *rng, emit func(string)) {
 			}
 		}
 	}
+	if prop == "C12" {
+		// Apply on one-element tensors (the kernels have a special case for them), both forms of the
+		// function argument, every mode
+		for _, dt := range []string{"f64", "f64@alt", "i", "i@alt", "f32@alt", "i64@alt", "i32@alt"} {
+			for _, sh := range []string{"1", "1,1", "_", "1,1,1", "2", "3,2"} {
+				for _, fn := range []string{"neg", "square"} {
+					emit(fmt.Sprintf("prog %s new:rm:%s:3;apply:%s:0:safe", dt, sh, fn))
+					emit(fmt.Sprintf("prog %s new:rm:%s:3;apply:%s:0:unsafe", dt, sh, fn))
+					emit(fmt.Sprintf("prog %s new:rm:%s:3;new:rm:%s:40;apply:%s:0:reuse.1", dt, sh, sh, fn))
+					emit(fmt.Sprintf("prog %s new:rm:%s:3;new:rm:%s:40;apply:%s:0:incr.1", dt, sh, sh, fn))
+				}
+			}
+			emit(fmt.Sprintf("prog %s new:rm:3,3:1;slice:0:1.2.0/2.3.0;apply:square:1:safe;apply:neg:1:unsafe", dt))
+		}
+	}
 	if prop == "C07" || prop == "C12" {
 		// destinations of the wrong size (too small, too big) are refused and left as they were
 		for _, dsh := range []string{"3,3", "5", "2", "2,2,2"} {
